@@ -499,3 +499,43 @@ func LastField(v ssa.Value) string {
 	}
 	return p[len(p)-1]
 }
+
+// ReachesReturnFrom is ReachesReturnAvoiding starting right after instruction start.
+func ReachesReturnFrom(start ssa.Instruction, stop func(ssa.Instruction) bool, isTarget func(*ssa.Return) bool) *ssa.Return {
+	seen := map[*ssa.BasicBlock]bool{}
+	var found *ssa.Return
+	scan := func(instrs []ssa.Instruction) bool { // returns true when the path continues
+		for _, in := range instrs {
+			if stop(in) {
+				return false
+			}
+			if r, ok := in.(*ssa.Return); ok {
+				if isTarget(r) {
+					found = r
+				}
+				return false
+			}
+		}
+		return true
+	}
+	var visit func(b *ssa.BasicBlock)
+	visit = func(b *ssa.BasicBlock) {
+		if seen[b] || found != nil {
+			return
+		}
+		seen[b] = true
+		if scan(b.Instrs) {
+			for _, s := range b.Succs {
+				visit(s)
+			}
+		}
+	}
+	b := start.Block()
+	i := InstrIndex(start)
+	if scan(b.Instrs[i+1:]) {
+		for _, s := range b.Succs {
+			visit(s)
+		}
+	}
+	return found
+}
